@@ -27,7 +27,7 @@ RULE = ("cases: seeded surfaces in phreeqc.dat and (one in four) wateq4f.dat wit
         "with 0-4 sorbing ions (Ca Mg Sr Ba Zn Cd Pb Cu Mn S(6) P F), 9 electrostatic options, explicit composition or -equilibrate, optional REACTION. "
         "distinct & non-trivial = distinct (electrostatic option, site-type count, species whose mass action was evaluated)")
 ASSUME = ["physical constants are the manual's / engine's (F = 96493.5, R = 8.3147, eps0 = 8.854e-12)", "surface-species activities follow the mole-fraction convention the manual defines; "
-          "all database species are monodentate so the convention cancels inside each reaction", "CD-MUSIC: only the site balance is judged here (the database gives no charge-distribution parameters for Hfo)",
+          "all database species are monodentate so the convention cancels inside each reaction", "CD-MUSIC with Hfo: only the site balance (the database gives no charge-distribution parameters for Hfo); one case in eight uses a goethite-like CD-MUSIC surface defined in the input and judges the two capacitor laws and the site balance",
           "runs that report an error are inconclusive"]
 
 F_C = 96493.5
@@ -112,7 +112,72 @@ def build(ctx, case, db):
     return text, info
 
 
+def run_goe(ctx, case):
+    """CD-MUSIC with a surface whose species distribute charge over the 0-, 1- and 2-plane (goethite-like definitions, gens.GOE_DEFS): the capacitor laws
+    sigma0 = C1 (psi0 - psi1), sigma0 + sigma1 = C2 (psi1 - psi2), and the site balance, from the EDL read-outs"""
+    r = ctx.rng("goe", case["i"])
+    f = gens.fmt
+    c1, c2 = r.choice([(0.98, 0.73), (1.0, 5.0), (1.1, 0.2), (0.85, 0.75), (2.0, 0.9), (0.9, 0.9)])
+    ph, ionic = round(r.uniform(3.5, 10.5), 2), gens.loguni(r, 1e-3, 0.5)
+    sites, area, mass = gens.loguni(r, 1e-4, 3e-3), r.choice([96, 45]), gens.loguni(r, 0.5, 5)
+    text = ("KNOBS\n -convergence_tolerance 1e-12\n -iterations 400\n" + gens.GOE_DEFS +
+            "SELECTED_OUTPUT 1\n -reset false\n -state true\nUSER_PUNCH 1\n -headings tk mu eps psi0 psi1 psi2 s0 s1 s2 kgw m0 m1 m2 m3 m4\n -start\n"
+            ' 10 PUNCH TK, MU, EPS_R, EDL("psi", "Goe"), EDL("psi1", "Goe"), EDL("psi2", "Goe")\n 20 PUNCH EDL("sigma", "Goe"), EDL("sigma1", "Goe"), EDL("sigma2", "Goe"), TOT("water")\n'
+            ' 30 PUNCH MOL("Goe_uniOH-0.5"), MOL("Goe_uniOH2+0.5"), MOL("Goe_uniOHNa+0.5"), MOL("Goe_uniOH2Cl-0.5"), MOL("Goe_uniOHCa+1.5")\n -end\n'
+            "SOLUTION 1\n temp %s\n pH %s\n units mol/kgw\n Na %s\n Cl %s charge\n Ca %s\n" % (f(r.choice([25, 25, 15, 40])), f(ph), f(ionic), f(ionic), f(gens.loguni(r, 1e-5, 1e-3))) +
+            "SURFACE 1\n -equilibrate 1\n Goe_uniOH-0.5 %s %s %s\n -capacitances %s %s\n -cd_music\nEND\n" % (f(sites), f(area), f(mass), f(c1), f(c2)))
+    if r.random() < 0.5:
+        text += "USE solution 1\nUSE surface 1\nREACTION 1\n %s 1\n %s mol\nEND\n" % (r.choice(["HCl", "NaOH", "NaCl"]), f(gens.loguni(r, 1e-5, 1e-3)))
+    cwd = ctx.scratch(case["id"])
+    s = core.Script()
+    s.raw("new a")
+    s.raw("loaddb a " + os.path.join(ctx.db, "phreeqc.dat"))
+    s.run("a", text)
+    s.raw("snap a se")
+    run = core.run_vdrive(ctx.bin("opt"), s.bytes(), cwd, timeout=120)
+    if core.process_failure(run):
+        return Result(INCONCLUSIVE, reason="process failure")
+    rr, sn = core.rets(run, "run"), core.rets(run, "snap")
+    if not rr or rr[0].get("r") != 0 or not sn or not sn[0]["selout"]:
+        et = (sn[0]["error"].get("text", "") if sn else "").strip().split("\n")[0]
+        return Result(INCONCLUSIVE, reason="run reports errors: " + " ".join(et.split())[:45])
+    cells = sn[0]["selout"][0]["cells"]
+    hd = [c[1] for c in cells[0]]
+    findings, sigs, nchk = [], set(), 0
+    for row in cells[1:]:
+        d = {h: (float(c[1]) if c[0] in "dl" else c[1]) for h, c in zip(hd, row)}
+        if d.get("state") not in ("i_surf", "react"):
+            continue
+        try:
+            tk, mu, eps, p0, p1, p2, s0, s1, s2, kgw = (d[k] for k in ("tk", "mu", "eps", "psi0", "psi1", "psi2", "s0", "s1", "s2", "kgw"))
+        except KeyError:
+            continue
+        tag = "%s (C1 %g, C2 %g, pH %g, I %.3g, %s)" % (case["id"], c1, c2, ph, mu, d["state"])
+        scale = max(abs(s0), abs(s1), abs(s2), 1e-6)
+        nchk += 3
+        if abs(s0 - c1 * (p0 - p1)) > 1e-5 * scale:
+            findings.append(("C20/cd-music/inner-capacitor", "%s: sigma0 = %.9g C/m2 but C1 (psi0 - psi1) = %.9g" % (tag, s0, c1 * (p0 - p1))))
+        if abs((s0 + s1) - c2 * (p1 - p2)) > 1e-5 * scale:
+            findings.append(("C20/cd-music/outer-capacitor", "%s: sigma0 + sigma1 = %.9g C/m2 but C2 (psi1 - psi2) = %.9g" % (tag, s0 + s1, c2 * (p1 - p2))))
+        # the closure at psi2 is the general Grahame equation over all ions (Ca+2 included), not the symmetric-electrolyte formula of the Dzombak-Morel model: not judged here
+        tot = sum(d.get("m%d" % k, 0.0) for k in range(5)) * kgw
+        want = float(f(sites))
+        if abs(tot - want) > 1e-8 * want:
+            findings.append(("C20/site-balance/Goe_uni", "%s: species hold %.12g mol of sites, %.12g defined" % (tag, tot, want)))
+        sigs.add("cd_music_goe|%s|%s" % (d["state"], "eqcap" if c1 == c2 else "uneqcap"))
+    if nchk == 0:
+        return Result(INCONCLUSIVE, reason="no surface row")
+    stats = {"n_checks": nchk}
+    sample = dict(id=case["id"], model="cd_music_goe", capacitances=(c1, c2), ph=ph)
+    if findings:
+        k, w = findings[0]
+        return Result(VIOLATED, key=k, what=w, findings=findings[1:], sigs=sigs, sample=sample, stats=stats)
+    return Result(HELD, sigs=sigs, sample=sample, stats=stats)
+
+
 def run_case(ctx, case):
+    if case["i"] % 8 == 7:
+        return run_goe(ctx, case)
     db = c01.get_db(ctx, case["db"])
     text, info = build(ctx, case, db)
     cwd = ctx.scratch(case["id"])
@@ -182,18 +247,21 @@ def run_case(ctx, case):
         area_tot = info["area"] * info["mass"]
         q = sum(m * kgw * dbparse.charge_of(sp)[1] for sp, m in mol.items())          # eq
         sig_species = q * F_C / area_tot
+        # the net charge is a difference of the charged species' amounts: near the point of zero charge its round-off is set by their sum, not by the net value
+        qabs = sum(abs(m * kgw * dbparse.charge_of(sp)[1]) for sp, m in mol.items())
+        sig_floor = 1e-12 * qabs * F_C / area_tot
         if model in ("ddl", "ccm"):
             nchk += 1
-            if abs(d["sigma"] - sig_species) > 1e-8 * max(abs(sig_species), 1e-12):
+            if abs(d["sigma"] - sig_species) > 1e-8 * max(abs(sig_species), 1e-12) + sig_floor:
                 findings.append(("C20/sigma-readout/%s" % model, "%s: EDL sigma = %.12g C/m2, from species charges %.12g" % (case["id"], d["sigma"], sig_species)))
-            if abs(d["charge"] - q) > 1e-8 * max(abs(q), 1e-15):
+            if abs(d["charge"] - q) > 1e-8 * max(abs(q), 1e-15) + 1e-12 * qabs:
                 findings.append(("C20/charge-readout/%s" % model, "%s: EDL charge = %.12g eq, from species %.12g" % (case["id"], d["charge"], q)))
         if model == "ddl":
             gc = math.sqrt(8000.0 * eps * EPS0 * R_J * tk * mu) * math.sinh(F_C * psi / (2.0 * R_J * tk))
             nchk += 1
             rel = abs(gc - sig_species) / max(abs(gc), abs(sig_species), 1e-30)
             worst_sig = max(worst_sig, rel)
-            if rel > 1e-8 and abs(sig_species) > 1e-12:
+            if abs(gc - sig_species) > 1e-8 * max(abs(gc), abs(sig_species)) + 1e3 * sig_floor and abs(sig_species) > 1e-12:      # the solver fixes the net charge to about 1e-9 of the charged sites
                 findings.append(("C20/gouy-chapman", "%s: sigma from species %.12g C/m2, Gouy-Chapman at psi = %.9g V, I = %.6g, eps = %.6g, T = %.2f K gives %.12g (relative %.2e)" % (
                     case["id"], sig_species, psi, mu, eps, tk, gc, rel)))
         if model == "ccm":
@@ -201,7 +269,7 @@ def run_case(ctx, case):
             want = info["cap"] * psi
             rel = abs(want - sig_species) / max(abs(want), abs(sig_species), 1e-30)
             worst_sig = max(worst_sig, rel)
-            if rel > 1e-8 and abs(sig_species) > 1e-12:
+            if abs(want - sig_species) > 1e-8 * max(abs(want), abs(sig_species)) + 1e3 * sig_floor and abs(sig_species) > 1e-12:      # the solver fixes the net charge to about 1e-9 of the charged sites
                 findings.append(("C20/constant-capacitance", "%s: sigma from species %.12g C/m2, C * psi = %.12g (C = %g F/m2, psi = %.9g V)" % (case["id"], sig_species, want, info["cap"], psi)))
     # (4) explicit diffuse layer: surface + layer balance
     if model in ("donnan", "donnan_debye", "diffuse_layer", "counter_only") and len(sn) > 1:
